@@ -80,6 +80,13 @@ NON_IO_ERRORS = ("std::str::Utf8Error", "std::string::FromUtf8Error", "std::arra
                  "std::num::TryFromIntError", "std::char::CharTryFromError", "std::char::DecodeUtf16Error", "std::num::ParseIntError", "std::ffi::OsString", "&'static str", "&str", "()")
 
 
+def _fieldless_local_enum(crate, ety):
+    """A same-crate error enum none of whose variants has a payload (`ReadSizeError::{Truncated, ..}`): it can say
+    which case occurred and nothing else, so it cannot carry an I/O or parser failure."""
+    a = crate.adts.get(ety)
+    return bool(a and a.get("crate") == "xt" and a["kind"] == "enum" and a["variants"] and all(not v["fields"] for v in a["variants"]))
+
+
 def _err_type_of(ty):
     import re
 
@@ -194,24 +201,62 @@ def _diagnostic_before_exit(b, bb, t):
         return False
     if t["target"] is None:
         return False
-    r = b.reachable_from(t["target"])
+    return _only_exit_follows(b, t["target"])
+
+
+def _only_exit_follows(b, start, depth=0):
+    """Every path from block `start` of b ends in process::exit — in b itself, or, where b returns, in every caller
+    right after the call (a non-diverging `write_line(args)` helper used only by the bail macros)."""
+    r = b.reachable_from(start)
     ends = [x for x in r if not b.succ(x)]
     if not ends:
         return False
+    exits = False
+    returns = False
     for x in ends:
         tt = b.blocks[x]["term"]
         if tt["k"] == "unreachable":
             continue
+        if tt["k"] == "return":
+            returns = True
+            continue
         if not (tt["k"] == "call" and (fn_of(tt) or {}).get("def") == "std::process::exit"):
             return False
-    return any(b.blocks[x]["term"]["k"] == "call" for x in ends)
+        exits = True
+    if returns:
+        if depth >= 2:
+            return False
+        sites = []
+        for cb in b.crate.bodies:
+            for cbb, ct in cb.calls():
+                cf = fn_of(ct) or {}
+                if (cf.get("resolved") or cf.get("def")) == b.id:
+                    sites.append((cb, ct))
+            # the helper must not escape as a value
+            for blk in cb.blocks:
+                for s_ in blk["stmts"]:
+                    if s_["k"] == "assign":
+                        rv = s_["rv"]
+                        for o in [rv.get("op")] + list(rv.get("ops", [])):
+                            if isinstance(o, dict) and o.get("k") == "fn" and o.get("def") == b.id:
+                                return False
+        if not sites:
+            return False
+        for cb, ct in sites:
+            if ct.get("target") is None or not _only_exit_follows(cb, ct["target"], depth + 1):
+                return False
+        return True
+    return exits
 
 
 def _reviewed():
     return json.load(open(os.path.join(VERIF, "tables", "discards.json")))["entries"]
 
 
-@rule("R12.1", 40, "no fallible result is discarded: every Result produced by a call is propagated, matched on, returned or handed on (reviewed exceptions enumerated)", ["C12"])
+_RESULT_VIEWS = ("std::result::Result::<T, E>::as_ref", "std::result::Result::<T, E>::as_mut", "std::result::Result::<T, E>::as_deref", "std::result::Result::<T, E>::as_deref_mut")
+
+
+@rule("R12.1", 40, "no fallible result is discarded: every Result produced by a call is propagated, matched on, returned or handed on (reviewed exceptions enumerated)", ["C12", "C11"])
 def r12_1(ctx):
     reviewed = _reviewed()
     budget = {}
@@ -249,11 +294,15 @@ def r12_1(ctx):
                 f = fn_of(t) or {}
                 if f.get("def") in ("std::ops::Try::branch", "std::ops::FromResidual::from_residual"):
                     continue
+                if f.get("def") in _RESULT_VIEWS and t["args"] and is_place(t["args"][0]) and b.local_ty(t["args"][0]["p"]["l"]).startswith("&"):
+                    # a borrowed view of a Result that stays where it is (`result.as_ref().unwrap_or(&0)`): whatever is
+                    # done with the view, the error is still in the original, which is judged as its own producer
+                    continue
                 n += 1
                 cls = _classify_uses(b, d["l"])
                 good = cls & {"consumed", "inspected", "returned"}
                 ety = _err_type_of(ty)
-                if not good and ety in NON_IO_ERRORS:
+                if not good and (ety in NON_IO_ERRORS or _fieldless_local_enum(crate, ety)):
                     k = (crate.kind, b.id, f.get("name", "?"))
                     seen_ok[k] = seen_ok.get(k, 0) + 1
                     ctx.ob(f"handled:{crate.kind}:{b.id}:{f.get('name', '?')}:{seen_ok[k] - 1}", True, site(b, bb), f"error type {ety} cannot carry an I/O or parser failure", trivial=True)
@@ -268,6 +317,13 @@ def r12_1(ctx):
                     ctx.ob(f"handled:{crate.kind}:{b.id}:{f.get('name', '?')}:{seen_ok[k] - 1}", True, site(b, bb), "result is " + ",".join(sorted(good)))
                     continue
                 form = ",".join(sorted(cls)) or "unused"
+                if form.startswith("discard:is_ok()/is_err()") and common.is_io_write_call(t) and (f.get("self_ty") or "").replace("&mut ", "") in ("[u8]",):
+                    # a formatted write into a fixed byte slice can only fail with "does not fit", and that is what the
+                    # verdict says; nothing about the failure is lost by not looking at the error value
+                    k = (crate.kind, b.id, f.get("name", "?"))
+                    seen_ok[k] = seen_ok.get(k, 0) + 1
+                    ctx.ob(f"handled:{crate.kind}:{b.id}:{f.get('name', '?')}:{seen_ok[k] - 1}", True, site(b, bb), "write into a fixed in-memory slice: the is_ok()/is_err() verdict is the whole outcome (fits / does not fit)", trivial=True)
+                    continue
                 if form == "dropped" and _diagnostic_before_exit(b, bb, t):
                     k = (crate.kind, b.id, f.get("name", "?"))
                     seen_ok[k] = seen_ok.get(k, 0) + 1
